@@ -151,7 +151,7 @@ theorem restart_forgotten_at_commit (s s1 s2 : State) (u1 u2 : List (Addr × Int
   rfl
 
 /-- non-vacuity of `readonly`/`outputs`: a history with traffic in it -/
-example : readonly (.tx .check ⟨.send "a" "b" 1, 0, true, 0, 0, "none", "x"⟩) = true ∧ readonly .commit = false := by
+example : readonly (.tx .check ⟨.send "a" "b" 1, 0, true, 0, 0, "none", "x", 0⟩) = true ∧ readonly .commit = false := by
   exact ⟨rfl, rfl⟩
 
 /-! ### the multistore -/
